@@ -330,7 +330,7 @@ def run(chk):
     chk.traces += total
     chk.uncovered += SKIPPED
     # 3. I->S: validate the projected runs against the Locked protocol
-    wd = VERIF / "out" / "work" / "C19_trace_in"
+    wd = tlc.WORK / "C19_trace_in"
     wd.mkdir(parents=True, exist_ok=True)
     (wd / "traces.json").write_text(json.dumps([{k: v for k, v in t.items() if not k.startswith("_")} for t in traces]))
     r = tlc.run("Trace_LazyInit", "INIT Init\nNEXT Next\n", name="C19_trace", workers=1, env={"TRACE_FILE": str(wd / "traces.json")},
